@@ -63,6 +63,9 @@ def make_arg(torch, x, ik):
     if ik in ("plain", "nograd"):
         a = x.clone()
         return a, [a]
+    if ik == "wide":
+        a = x.clone().double() if x.dtype == torch.float32 else x.clone()
+        return a, [a]
     if ik == "shape2":
         a = torch.stack([x, 0.5 * x], dim=1)   # [n, 2, ...]: another event shape, same kind of values
         return a, [a]
@@ -326,6 +329,13 @@ class SessionDriver:
         m2 = self.e.build(self.seed + 1000 * self.reloads + 17, alt=True)
         if self.reloads % 2 == 0:
             m2.eval()   # users also switch a fresh model to evaluation mode BEFORE loading
+        if self.reloads % 3 == 0:
+            # ... and run it once (a smoke test / validation pass under no_grad) before restoring the checkpoint
+            m2.eval()
+            try:
+                self.probe(m2, drop_caches=False)
+            except Exception:  # noqa
+                pass
         keys_match = set(m2.state_dict().keys()) == set(sd.keys())
         err = None
         try:
